@@ -377,6 +377,13 @@ func runProperty(prop string, tier string, seed int, only string) (*runResult, e
 		fr := &FuncReport{Func: sp.name, Package: sp.pkg}
 		res.funcs = append(res.funcs, fr)
 		fn := L.findFunc(sp.pkg, sp.name)
+		if (fn == nil || len(fn.Blocks) == 0) && L.isIfaceMethod(sp.pkg, sp.name) {
+			// contract on an abstract interface method: assumed of every implementation, applied at invoke sites
+			fr.Bound = true
+			fr.Unsupported = append(fr.Unsupported, "contract on an interface method: assumed of all implementations (trusted), not verified")
+			res.trusted["assumed interface-method contract: "+sp.pkg+"."+sp.name] = true
+			continue
+		}
 		if fn == nil || len(fn.Blocks) == 0 {
 			fr.Unsupported = append(fr.Unsupported, "function not found in /repo (renamed or removed): contract does not bind")
 			continue
@@ -707,6 +714,11 @@ func (c *FnCtx) rollback(nd, na int, before map[string]bool) {
 		f := strings.Fields(d)
 		if len(f) > 1 {
 			delete(c.declared, f[1])
+			for k, n := range c.strConst {
+				if n == f[1] {
+					delete(c.strConst, k)
+				}
+			}
 		}
 	}
 	c.decls = c.decls[:nd]
